@@ -418,7 +418,7 @@ def _background_index(ctx):
     bad = []
     for names in itertools.permutations(eps):
         for explicit in (None,) + tuple(names):
-            for axis in range(3):
+            for axis, single in itertools.product(range(3), (False, True)):
                 it = ctx.fresh_interp()
                 seen = {}
                 table = NdArr((1, 3), [0, 0, 0])
@@ -430,7 +430,7 @@ def _background_index(ctx):
 
                 stub_repo_calls(it, {"fdtdx.objects.device.parameters.utils.compute_allowed_indices": cai})
                 mats = {nm: mat(eps[nm], nm) for nm in names}
-                o = Obj(P, dict(axis=axis, single_polymer_columns=False, distance_metric="euclidean", background_material=explicit), "pillar")
+                o = Obj(P, dict(axis=axis, single_polymer_columns=single, distance_metric="euclidean", background_material=explicit), "pillar")
                 shape = (2, 3, 4)
                 try:
                     out = it.call_method(o, "init_module", config=Obj(None, {}, "cfg"), materials=mats, matrix_voxel_grid_shape=shape, single_voxel_size=(1.0, 1.0, 1.0), output_shape={"p": shape})
@@ -441,10 +441,10 @@ def _background_index(ctx):
                 got = seen.get("fill_holes_with_index")
                 got = list(got) if isinstance(got, (list, tuple)) else got
                 stored = out.attrs.get("_allowed_indices") if isinstance(out, Obj) else None
-                if got != [want] or seen.get("num_layers") != shape[axis] or list(seen.get("indices") or []) != [0, 1, 2] or seen.get("single_polymer_columns") is not False or stored is not table:
-                    bad.append((names, explicit, axis, dict(fill=got, num_layers=seen.get("num_layers"), indices=seen.get("indices"), stored=stored), [want]))
-    ctx.ob("R24.5", "PillarDiscretization.init_module:background", not bad, "the column table is enumerated over all material indices for the pillar axis' height with the background's index in the permittivity-sorted material order (the order of the candidates' values in __call__), for the default (lowest permittivity) and for an explicit background, whatever the dictionary's insertion order, and is stored as the candidate table" + f" ({n} scopes: 6 orders x 4 backgrounds x 3 axes)", bad[:3], "sorted-order index")
-    ctx.require_count("R24.5 scopes", n, 72)
+                if got != [want] or seen.get("num_layers") != shape[axis] or list(seen.get("indices") or []) != [0, 1, 2] or seen.get("single_polymer_columns") is not single or stored is not table:
+                    bad.append((names, explicit, axis, single, dict(fill=got, single=seen.get("single_polymer_columns"), num_layers=seen.get("num_layers"), indices=seen.get("indices"), stored=stored), [want]))
+    ctx.ob("R24.5", "PillarDiscretization.init_module:background", not bad, "the column table is enumerated over all material indices for the pillar axis' height with the background's index in the permittivity-sorted material order (the order of the candidates' values in __call__), for the default (lowest permittivity) and for an explicit background, whatever the dictionary's insertion order, and is stored as the candidate table" + f" ({n} scopes: 6 orders x 4 backgrounds x 3 axes x the single-polymer option, which is passed on as configured)", bad[:3], "sorted-order index")
+    ctx.require_count("R24.5 scopes", n, 144)
 
 
 def run_thorough(ctx):
